@@ -155,7 +155,9 @@ VERDICT = {
     2: ("change-not-reloaded", "the batch ended after a file changed but no Reload call followed the last change"),
     3: ("reload-without-change", "the batch ended with nothing changed and nothing pending, yet NGINX was reloaded"),
     4: ("reload-without-change", "the batch ended with nothing changed and nothing pending, yet everything was regenerated and NGINX reloaded"),
-    5: ("reload-failure-not-reported", "a failed Reload was not reported on any resource (no Warning event)"),
+    5: ("reload-failure-not-reported", "the Reload that closes the batch failed and was not reported on any resource (no Warning event)"),
+    8: ("reload-failure-not-reported", "the handler's own Reload failed, its object still exists, and nothing was reported on it (no Warning event)"),
+    9: ("reload-failure-not-reported", "the Reload of updateAllConfigs failed and was reported neither on a resource nor on the ConfigMap/GlobalConfiguration"),
     7: ("change-not-applied", "outside any batch the sync changed a file but neither called Reload afterwards nor pushed the change through the Plus API"),
     6: ("reload-failure-not-reported", "a Reload that failed while endpoints were updated was only logged (no Warning event on the resources using the service)"),
 }
@@ -223,8 +225,10 @@ def judge(run, cases, res):
                 kind, what = VERDICT.get(v, ("spec", "specification fails"))
                 t = c["tasks"][i]
                 ended = (i > 0 and c["obs"][i - 1]["batch"]) and not c["obs"][i]["batch"]
-                if ended and v in (2, 3, 5):
+                if v == 5 or (ended and v in (2, 3)):
                     site = "batch-end"
+                elif v == 9:
+                    site = "updateAllConfigs"
                 elif ended and v == 4:
                     # the batch is syncs j..i; a ConfigMap task inside it makes updateAllConfigs the intended ending
                     # (then the reload without change is the by-design F16a class), otherwise the stale flag did it
@@ -260,6 +264,8 @@ TRUSTED = [
     "over a recording nginx.Manager",
     "the recording Manager (in-memory files with byte comparison standing in for LocalManager.configContentsChanged; Reload and Plus API results injected by call index); "
     "the nginx process itself is not run",
+    "four fixed probes on the real code decide which variant of the model applies (repairs F15/F16b/F16c/F16d present or not); the specification is "
+    "evaluated on the observations regardless of the variant",
     "the harness's own formulas for file names, upstream names and content identity of the generated resources (a wrong formula shows up as a correspondence mismatch)",
 ]
 
@@ -273,6 +279,9 @@ def check(run):
     if rc != 0:
         raise C.TieBroken("c12 harness failed rc=%d: %s" % (rc, log[-1500:]))
     cases = C.read_jsonl(out)
+    if cases:
+        # which of the proposed repairs (fixes/F15, F16b, F16c, F16d) the tree under test contains, probed by the harness
+        run.cov["code_variant_probed"] = cases[0].get("fix")
     shard = 60
     parts = [cases[k:k + shard] for k in range(0, len(cases), shard)]
     from concurrent.futures import ThreadPoolExecutor
